@@ -1,5 +1,6 @@
 import Netpol.Properties.C08.Engine
 import Netpol.Properties.C08.Format
+import Netpol.Properties.C08.Commands
 /-! C08 — output is deterministic and independent of the order of the input.
 
 The property is split along the pipeline:
@@ -14,6 +15,13 @@ The property is split along the pipeline:
   code (DESIGN.md section 12).
 * `Netpol.Properties.C08.Format` (format layer: each formatter is a function of the *set* of computed entries) — see
   that module when present.
+
+* `Netpol.Properties.C08.Commands`: the same for the other commands — `diff` (`diff_order_independent`,
+  `diff_inner_order_independent`), `list --exposure` (`listx_order_independent[_struct]`,
+  `listx_inner_order_independent[_struct]`) and `eval` (`eval_order_independent`: distinct keys only, since the
+  policies selecting a pod are visited in the order of their names; `eval_inner_order_independent` needs that no
+  named port can meet an IP block and no rule peer is empty: `eval` stops at the first rule / port / peer that
+  allows the point).
 
 Go's map iteration order is modelled as "the model's lists are in input order and the input order is arbitrary":
 a theorem quantified over all permutations of the input covers every iteration order of `podsMap`, `netpolsMap`,
